@@ -5,7 +5,8 @@ from ..gaps import rule_M8
 
 LEVEL_TEXT = ('Abstract interpretation of PhaseShift.transform in an interval domain with '
               'open/closed ends and the documented float-modulo transfer function, in both '
-              'directions, plus a linear-form comparison of the forward and inverse shifts.')
+              'directions, plus a linear-form comparison of the forward and inverse shifts.'
+              ' Plus exact rational algebra on PhaseShift.compute: circular gaps (wrap gap decided piecewise for distinct and coincident coordinates), centre opposite the midpoint of argmax(gaps), also for vectorised (axis-0) forms; and a store-rounding model for columns of unknown dtype.')
 
 
 def run(ctx):
